@@ -14,6 +14,7 @@ pack.  The theorems `*_filed` in Lemmas/Index state the exact behaviour without 
 `mixed_pack_is_filed_under_first_blob_type` is the witness of what happens outside it.
 -/
 import Rustic.Lemmas.Index
+import Rustic.Lemmas.PackU32
 namespace Rustic.Props.C17
 open Rustic.Pack Rustic.Index
 
@@ -209,6 +210,55 @@ theorem iter_type_roundtrip (files : List IndexFile) (hwf : WF files) (t : BlobT
 theorem model_iter_is_tree_then_data (files : List IndexFile) :
     (load .full files).intoIter =
       (load .full files).tree.iter .tree ++ (load .full files).data.iter .data := rfl
+
+/-! ### the `u32` corner of `pack_size()` (sizes in index files are not bounded by what a pack can hold)
+
+`Model/Index.lean` computes sizes in `Nat`; the code folds `acc + length + entry_len` on `u32` (`Model/PackU32.lean`:
+`packSizeChecked` = builds with overflow checks, `none` = panic `attempt to add with overflow`; `packSizeWrapping` =
+release builds).  `FitsU32 p` (the computed size is `< 2^32`) is exactly the condition under which the `Nat` model is the
+code. -/
+open Rustic.PackU32 in
+/-- `IndexPack::pack_size` as the code computes it: with overflow checks it returns the `Nat` model's value if that fits
+`u32` and panics otherwise; without, it returns the value modulo 2^32 (`hsz`: the `size` field is a `u32`). -/
+theorem pack_size_u32 (p : IndexPack) (hsz : ∀ s, p.size = some s → s < U32) :
+    IndexPack.packSizeChecked p = (if FitsU32 p then some p.packSize else none) ∧
+      IndexPack.packSizeWrapping p = p.packSize % U32 := by
+  obtain ⟨id, blobs, size⟩ := p
+  cases size with
+  | none =>
+    refine ⟨?_, packSizeWrapping_eq blobs⟩
+    simp only [IndexPack.packSizeChecked, FitsU32, IndexPack.packSize]
+    exact packSizeChecked_eq blobs
+  | some s =>
+    have hs : s < U32 := hsz s rfl
+    simp only [IndexPack.packSizeChecked, IndexPack.packSizeWrapping, FitsU32, IndexPack.packSize]
+    exact ⟨by simp [hs], (Nat.mod_eq_of_lt hs).symm⟩
+
+open Rustic.PackU32 in
+/-- (4') `total_size_sum` in terms of the code's own `u32` computation — PARTIAL.
+Full statement (false, see the witness below): for EVERY set of index files the totals equal the sum of the listed pack
+sizes.  Missing hypothesis: `hfit` — every unmarked pack's computed size fits `u32`.  Under it the code's checked
+computation succeeds for every listed pack, equals the `Nat` model's size, and the totals are the sums of those values. -/
+theorem total_size_sum_u32_partial (m : IndexType) (files : List IndexFile) (idx : Index) (h : Loaded m files idx)
+    (hsz : ∀ p ∈ unmarked files, ∀ s, p.size = some s → s < U32)
+    (hfit : ∀ p ∈ unmarked files, FitsU32 p) :
+    (∀ p ∈ unmarked files, IndexPack.packSizeChecked p = some p.packSize ∧ IndexPack.packSizeWrapping p = p.packSize) ∧
+    idx.totalSize .tree + idx.totalSize .data = ((unmarked files).map (·.packSize)).sum := by
+  refine ⟨fun p hp => ?_, (total_size_sum m files idx h).2⟩
+  obtain ⟨h1, h2⟩ := pack_size_u32 p (hsz p hp)
+  have hf := hfit p hp
+  refine ⟨by rw [h1]; simp [hf], ?_⟩
+  rw [h2]; exact Nat.mod_eq_of_lt hf
+
+open Rustic.PackU32 in
+/-- Witness outside `hfit` (replayed on the real code: corpus/C17/witnesses.ops, known finding): one pack listing two
+blobs of 2^31 bytes.  The listed sizes add up to 2^32 + 110; a checked build panics when the index is loaded, a release
+build records 110.  One byte less (2^32 − 1 in total) is still fine. -/
+theorem pack_size_overflow_witness :
+    let p : IndexPack := { id := 1, size := none, blobs := [⟨5, .data, ⟨0, 2147483648, none⟩⟩, ⟨7, .data, ⟨2147483648, 2147483648, none⟩⟩] }
+    let q : IndexPack := { id := 1, size := none, blobs := [⟨5, .data, ⟨0, 2147483648, none⟩⟩, ⟨7, .data, ⟨2147483648, 2147483537, none⟩⟩] }
+    ¬ FitsU32 p ∧ p.packSize = 4294967406 ∧ IndexPack.packSizeChecked p = none ∧ IndexPack.packSizeWrapping p = 110 ∧
+      FitsU32 q ∧ IndexPack.packSizeChecked q = some 4294967295 := by decide
 
 /-- Outside `WF`: a pack whose blobs have mixed types is filed — with ALL its blobs — under the type of its
 first blob.  Here the data blob `7` of a tree-first pack is not found as data and is found as a tree.
